@@ -129,12 +129,12 @@ func init() {
 		Title:     "Reference queries return the current referrers and always terminate",
 		Technique: "reference-model monitor: reverse-reachability closure of the model's reference graph versus FindReferences/FindRelationsByFeature/FindCollectionsByFeature/FindAreasByPoint; crash/hang detection for cyclic graphs in a child process",
 		Rule: "case = (world kind basic / basic-mutable / mutable-overlay, generated reference graph over points, paths, areas, relations and collections, optionally with " +
-			"self-references and 2-/3-cycles, edit history that re-wires or replaces referencing features); distinct = kind + graph + history; " +
+			"self-references and 2-/3-cycles, edit history that re-wires or replaces referencing features, including replacements that are rejected because of a referrer and are followed by accepted ones); distinct = kind + graph + history; " +
 			"non-trivial = some feature has a referrer that is only reachable transitively",
 		Assumptions: []string{"for in-memory worlds the query is defined as the transitive reverse closure (what FindReferences documents by implementation); typed variants filter the closure"},
 		Quick:       600, Thorough: 60000,
 		Batch:    20,
-		Required: []string{"kind_basic", "kind_basic-mutable", "kind_mutable-overlay", "cyclic_graphs", "self_reference", "rewire_ops", "transitive_referrers", "queries", "replaced_base_referrer"},
+		Required: []string{"kind_basic", "kind_basic-mutable", "kind_mutable-overlay", "cyclic_graphs", "self_reference", "rewire_ops", "transitive_referrers", "queries", "replaced_base_referrer", "rejected_replacements"},
 		Run: func(c *core.Ctx) {
 			r := c.R
 			kind := []string{"basic", "basic-mutable", "mutable-overlay"}[c.Index%3]
@@ -237,7 +237,51 @@ func init() {
 			for i := 0; i < n; i++ {
 				var s *wm.Spec
 				pool := model.IDs()
-				switch r.Intn(4) {
+				switch r.Intn(5) {
+				case 4: // a closed path under an area: a replacement its area rejects, then one that drops a vertex
+					needed := map[b6.FeatureID]bool{}
+					for _, f := range model.F {
+						if f.ID.Type == b6.FeatureTypeArea {
+							for _, ref := range f.Refs() {
+								needed[ref] = true
+							}
+						}
+					}
+					var rings []*wm.Spec
+					for _, id := range pool {
+						if f := model.F[id]; id.Type == b6.FeatureTypePath && needed[id] && len(f.Path) >= 5 && f.Path[0].IsRef() && f.Path[0].Ref == f.Path[len(f.Path)-1].Ref {
+							rings = append(rings, f)
+						}
+					}
+					if len(rings) == 0 {
+						continue
+					}
+					ring := core.Pick(r, rings)
+					j := r.Range(1, len(ring.Path)-2)
+					open := ring.Clone()
+					if r.Bool() { // the rejected version already lacks the vertex the accepted one will drop
+						open.Path = append(open.Path[:j:j], open.Path[j+1:]...)
+					}
+					open.Path = open.Path[:len(open.Path)-1]
+					script = append(script, "AddFeature("+open.String()+") [must be rejected: its area needs a closed path]")
+					var rerr error
+					if p, cl, fr, st := core.Protect(func() { rerr = mutable.AddFeature(open.Ingest()) }); p {
+						c.Violate("addfeature:panic@"+fr+":"+kind, map[string]any{"history": script, "stack": st}, "AddFeature(%s) panicked: %s", open, cl)
+						return
+					}
+					if rerr == nil {
+						c.Count("open_replacement_accepted") // C13/C37's subject; the model cannot follow
+						return
+					}
+					c.Count("rejected_replacements")
+					if c15check(c, world, model, baseModel, kind, witness()) {
+						trans = true
+					}
+					if c.Violations() > 0 {
+						return
+					}
+					s = ring.Clone()
+					s.Path = append(s.Path[:j:j], s.Path[j+1:]...)
 				case 0: // re-wire a relation
 					s = model.F[core.Pick(r, rels).ID].Clone()
 					s.Members = nil
